@@ -164,6 +164,9 @@ def _run(case, rec):
     m = 10.0 ** case["logm"]
     target = cur * m if cur > 0 else 0.37 * scale0
     mini = prop in observe.MINIBALL_DERIVED and V0 is not None
+    if mini and len(V0) > 30:
+        rec.label("outside_domain:minball_oracle_too_large")
+        return  # the exact smallest-enclosing-ball oracle is O(n^4); C13 covers these radii
     pre = copy.deepcopy(obj) if mini else None
     r = call(setattr, obj, prop, target)
     if isinstance(r, Raised):
